@@ -2,4 +2,4 @@ INIT Init
 NEXT Next
 INVARIANT Emit
 CHECK_DEADLOCK FALSE
-CONSTANTS N = 60000  Mode = "f0"
+CONSTANTS N = 15000  Mode = "f0"
